@@ -1208,7 +1208,9 @@ static int parse_single_cert(psPool_t *pool, const unsigned char **pp,
     rc = getCertSignatureHashLen(cert, &cert->sigHashLen);
     if (rc < 0)
     {
-        return rc;
+        cert->parseStatus = PS_X509_UNSUPPORTED_SIG_ALG;
+        func_rc = rc;
+        goto out;
     }
 
     /* Most algorithms and APIs use pre-hashing before signature
@@ -1222,7 +1224,8 @@ static int parse_single_cert(psPool_t *pool, const unsigned char **pp,
         cert->tbsCertStart = psMalloc(pool, certLen);
         if (cert->tbsCertStart == NULL)
         {
-            return PS_MEM_FAIL;
+            func_rc = PS_MEM_FAIL;
+            goto out;
         }
         Memcpy(cert->tbsCertStart, tbsCertStart, certLen);
         cert->tbsCertLen = certLen;
